@@ -90,6 +90,8 @@ def _built_tree(ch):
             items.append({"kind": "Group", "tr": ch.choice(TRS), "kids": [_built_shape(ch) for _ in range(ch.int(1, 3))]})
         else:
             items.append(_built_shape(ch))
+    # a built document is not necessarily rendered: its sizes may still be lengths with units or percentages
+    root["render"] = ch.coin(0.5)
     return {"root": root, "items": items}
 
 
@@ -204,7 +206,8 @@ def build_tree(se, tree):
     if r["viewbox"]:
         kw["viewBox"] = r["viewbox"]
     svg = se.SVG(**kw)
-    svg.render(ppi=96.0, width=1000, height=1000, viewbox=svg.viewbox)
+    if r.get("render", True):
+        svg.render(ppi=96.0, width=1000, height=1000, viewbox=svg.viewbox)
     for it in tree["items"]:
         if it["kind"] == "Group":
             g = se.Group()
